@@ -316,6 +316,15 @@ func genXFuzz(r *Rng, tier string, n int, emit func(Case)) {
 			}
 		}
 	}
+	// blanks inside a prefixed name, an exponent, empty parentheses: always among the inputs
+	for _, t := range []string{"a : b", "a: b", "a :b", "p :*", "p : *", "/a : b", "1e3", "1E3", "1.e1", ".5e1", "()", "( )", "boolean(())", "a:b", "p:*",
+		// two-character operators are one token: no blank inside
+		"1 ! = 2", "1 !\t= 2", "a[b ! = 'x']", "1 != 2", "1 < = 2", "1 > = 2", "1 <= 2", "1 >= 2", "a / / b", "a : : b", ". . / a", "../a", ". ./a"} {
+		for _, g := range []string{"expr", "leafref", "pathEval"} {
+			emit(mkBuildCase(g, t, false, true))
+			emit(mkBuildCase(g, t, false, false))
+		}
+	}
 	for i := 0; i < n; i++ {
 		g := pick(r, []string{"expr", "expr", "leafref", "pathEval"})
 		var text string
